@@ -317,15 +317,21 @@ supla_esp_gpio_rs_set_relay(supla_roller_shutter_cfg_t *rs_cfg, uint8 value,
     return;
   }
 
+  // With a zero time margin a shutter that is already at the end stop is not
+  // driven further; a facade blind still has to move there to change its tilt
   if (value == RS_RELAY_UP) {
     if (supla_esp_cfg.AdditionalTimeMargin[rs_cfg->up->channel] == 0 &&
-        supla_esp_gpio_rs_get_current_position(rs_cfg) == 0) {
+        supla_esp_gpio_rs_get_current_position(rs_cfg) == 0 &&
+        (!supla_esp_gpio_rs_is_tilt_supported(rs_cfg) ||
+         supla_esp_gpio_rs_get_current_tilt(rs_cfg) == 0)) {
       return;
     }
     supla_esp_gpio_relay_hi(rs_cfg->up->gpio_id, 1);
   } else if (value == RS_RELAY_DOWN) {
     if (supla_esp_cfg.AdditionalTimeMargin[rs_cfg->up->channel] == 0 &&
-        supla_esp_gpio_rs_get_current_position(rs_cfg) == 100) {
+        supla_esp_gpio_rs_get_current_position(rs_cfg) == 100 &&
+        (!supla_esp_gpio_rs_is_tilt_supported(rs_cfg) ||
+         supla_esp_gpio_rs_get_current_tilt(rs_cfg) == 100)) {
       return;
     }
     supla_esp_gpio_relay_hi(rs_cfg->down->gpio_id, 1);
